@@ -13,6 +13,9 @@ PROP = dict(
         dict(binary="zext", driver="m3u8", quick=700, thorough=30000, shard=50,
              monitors=["m3u8_all_found: segment / variant / referenced-rendition URIs returned", "m3u8_only_found",
                        "error iff playlist damaged", "renditions of unreferenced groups are found"]),
+        dict(binary="zext", driver="docpost", quick=500, thorough=15000, shard=50,
+             monitors=["post_hops: children at the item's hop count, outlinks one further", "post_hop_guard: no outlink at or beyond --max-hops",
+                       "post_split: planted URLs become children / outlinks", "the archiver keeps the document's body"]),
         dict(binary="zext", driver="s3", quick=500, thorough=20000, shard=40,
              monitors=["s3_walk_complete: every non-empty object under the root prefix queued", "s3_walk_complete (converse): nothing else queued",
                        "s3_walk_terminates within walk_bound fetch decisions"]),
@@ -22,7 +25,9 @@ PROP = dict(
             "fasturl's verdict and xurls' matches as data; every generated document is rendered and read back by the real parser on every run. "
             "The bucket server is a model (continuation token = cursor into the listing order, honoured whatever the other parameters are; "
             "single-byte or no delimiter; ListObjects without delimiter), cross-checked page by page against an independently written Go simulator. "
-            "The dispatch in extractAssets/extractOutlinks (which extractor runs for which Content-Type, hop limit) is not modelled.",
+            "Post-processing (extractAssets / extractOutlinks dispatch, hop counts, hop limit) is modelled for a freshly archived item at depth 0 with "
+            "assets capture on and domains crawl off, for JSON / XML / sitemap / M3U8 bodies under their usual Content-Types; the S3 branch of the "
+            "dispatch (IsS3) and the site-specific extractors are not modelled.",
     assumptions=["the real parser reads the rendering of a generated AST back to that AST (checked on every case by the model-vs-implementation diff)",
                  "isValidURL(u) = true for a planted URL is a hypothesis of C19_json_all_found (fasturl is third-party); URLs outside fasturl's grammar are a known finding",
                  "S3 servers honour a continuation token as a position in key order even when the prefix parameter changed (Zeno's sub-folder links keep the parent page's token)"],
